@@ -2,12 +2,102 @@
 Translation validation of the 24 generated dispatchers against the selection rule read from canboat.json."""
 import z3
 from . import loader
-from .common import Report
+from .common import Report, guarded, run_jobs
 from .db import db
 from .explorer import explore, prove, satisfiable, Unsupported
 from .proxies import SymInt
 
 PID = "C08"
+
+
+_G = {}
+import re
+_DEF_FN = re.compile(r"^decode_pgn_\d+_\w+$")
+
+
+@guarded
+def _p_worker(pgn):
+    """(P) the public path keeps no selection state: two payloads through one decoder instance"""
+    from datetime import datetime
+    from . import explorer
+    from .proxies import SymBytes
+    explorer.STATS.__init__()
+    R, D = _G["R"], _G["D"]
+    rep = Report(PID, _G["tier"], 0, "translation_validation")
+    ns = R.pgns.__dict__
+    dns = R.decoder.__dict__
+    disagreements = 0
+    for _once in (0,):
+        group = D.groups[pgn]
+        saved, dsaved = {}, {}
+        for i, p in enumerate(group):
+            fn = "decode_pgn_%d_%s" % (pgn, p.id)
+            saved[fn] = ns.get(fn)
+            dsaved[fn] = dns.get(fn)
+            ns[fn] = dns[fn] = (lambda i, p: (lambda data_raw: R.message.NMEA2000Message(PGN=pgn, id=p.id, description=str(i))))(i, p)
+        for fn in [k for k in ns if _DEF_FN.match(k) and k not in saved]:
+            saved[fn] = ns[fn]
+            dsaved[fn] = dns.get(fn)
+            ns[fn] = dns[fn] = (lambda fn: (lambda data_raw: R.message.NMEA2000Message(PGN=pgn, id="<foreign definition %s>" % fn, description="x")))(fn)
+        # only the bytes that carry match fields are symbolic here (the full-width single-call run above covers the rest)
+        W = max([f.off + f.len for p in group for f in p.fields if f.match is not None and f.fixed] or [8])
+        nb = (W + 7) // 8
+        pa_, pb_ = z3.BitVec("pa", 8 * nb), z3.BitVec("pb", 8 * nb)
+
+        def as_bytes(v):
+            return SymBytes([SymInt(z3.ZeroExt(1, z3.Extract(8 * k + 7, 8 * k, v)), 8) for k in range(nb)][::-1])     # handed over last byte first
+
+        def h2():
+            dec = R.decoder.NMEA2000Decoder()
+            ts = datetime(2020, 1, 1)
+            m1 = dec._call_decode_function(pgn, 3, 7, 255, ts, as_bytes(pa_), None, b"")
+            m2 = dec._call_decode_function(pgn, 3, 7, 255, ts, as_bytes(pb_), None, b"")
+            return (None if m1 is None else m1.id), (None if m2 is None else m2.id)
+        try:
+            paths, ex = explore(h2, max_paths=20000)
+        except Unsupported as e:
+            rep.inconc("public path %d: %s" % (pgn, e))
+            continue
+        finally:
+            for fn, v in saved.items():
+                if v is None:
+                    ns.pop(fn, None)
+                else:
+                    ns[fn] = v
+            for fn, v in dsaved.items():
+                if v is None:
+                    dns.pop(fn, None)
+                else:
+                    dns[fn] = v
+        if ex.truncated:
+            rep.inconc("public path %d: path budget exhausted" % pgn)
+        ids = [p.id for p in group]
+        spec_b = spec_index(group, z3.ZeroExt(16, pb_))
+        spec_a = spec_index(group, z3.ZeroExt(16, pa_))
+        for k, p in enumerate(paths):
+            if p.kind != "return":
+                st0, m0 = satisfiable(p.cond())
+                if st0 == "sat":
+                    rep.violation({"kind": "public-path-raises", "pgn": pgn}, "PGN %d: decoding two payloads in a row raised %r" % (pgn, p.value),
+                                  {"kind": "dispatch2", "pgn": pgn, "a": hex(m0.eval(pa_, True).as_long()), "b": hex(m0.eval(pb_, True).as_long()), "nb": nb})
+                continue
+            id1, id2 = p.value
+            s1 = ids.index(id1) if id1 in ids else (-1 if id1 is None else -3)
+            s2 = ids.index(id2) if id2 in ids else (-1 if id2 is None else -3)
+            st, m = prove(z3.And(spec_a == z3.BitVecVal(s1, 16), spec_b == z3.BitVecVal(s2, 16)), p.pc, label="dispatch-twice/%d" % pgn)
+            if st == "sat":
+                disagreements += 1
+                a_, b_ = m.eval(pa_, True).as_long(), m.eval(pb_, True).as_long()
+                wa, wb = m.eval(spec_a, True).as_signed_long(), m.eval(spec_b, True).as_signed_long()
+                rep.violation({"kind": "selection-depends-on-history", "pgn": pgn},
+                              "PGN %d: payloads %#x then %#x through one decoder are decoded as %s then %s, the database rule selects %s then %s" % (
+                                  pgn, a_, b_, id1, id2, ids[wa] if wa >= 0 else None, ids[wb] if wb >= 0 else None),
+                              {"kind": "dispatch2", "pgn": pgn, "a": hex(a_), "b": hex(b_), "nb": nb})
+            elif st == "unknown":
+                rep.inconc("dispatch-twice/%d: %s" % (pgn, m))
+        rep.count("public_path_two_payload_paths", len(paths))
+    return dict(violations=rep.violations, inconclusive=rep.inconclusive, errors=rep.harness_errors, samples=rep.samples, stats=explorer.STATS,
+                counts=rep.counts, dis=disagreements)
 
 
 def width_for(group):
@@ -45,7 +135,7 @@ def run(tier, seed):
     R = loader.load()
     D = db()
     multi = [pgn for pgn in D.groups if D.multi(pgn)]
-    rep.functions = ["pgns.decode_pgn_<PGN> dispatchers (%d)" % len(multi), "encoder.NMEA2000Encoder._call_encode_function (name resolution)"]
+    rep.functions = ["pgns.decode_pgn_<PGN> dispatchers (%d)" % len(multi), "decoder.NMEA2000Decoder._call_decode_function (two payloads in a row through one instance)", "encoder.NMEA2000Encoder._call_encode_function (name resolution)"]
     rep.bounds = {"payload": "all bit patterns, width = 8*max(Length | 223 fast | 8 single)+16 bits", "dispatchers": len(multi)}
     rep.stubs = ["each decode_pgn_<PGN>_<Id> body replaced by a recorder returning its own name (bodies are C01's subject)"]
     ns = R.pgns.__dict__
@@ -64,6 +154,9 @@ def run(tier, seed):
             fn = "decode_pgn_%d_%s" % (pgn, p.id)
             saved[fn] = ns.get(fn)
             ns[fn] = (lambda i: (lambda data_raw: ("SEL", i)))(i)
+        for fn in [k for k in ns if _DEF_FN.match(k) and k not in saved]:
+            saved[fn] = ns[fn]             # the definitions of every other PGN: calling one is a wrong selection, not something to execute
+            ns[fn] = (lambda fn: (lambda data_raw: ("FOREIGN", fn)))(fn)
         W = width_for(group)
         pv = z3.BitVec("p", W)
         try:
@@ -89,8 +182,7 @@ def run(tier, seed):
             elif isinstance(p.value, tuple) and p.value[0] == "SEL":
                 sel = p.value[1]
             else:
-                rep.error("dispatcher %d returned %r" % (pgn, p.value))
-                continue
+                sel = -3          # something that is not one of this PGN's definitions (e.g. another PGN's decoder was called)
             st, m = prove(spec == z3.BitVecVal(sel, 16), p.pc, label="dispatch/%d/%d" % (pgn, k))
             if st == "sat":
                 disagreements += 1
@@ -98,7 +190,7 @@ def run(tier, seed):
                 want = m.eval(spec, True).as_signed_long()
                 key = {"kind": "wrong-definition", "pgn": pgn,
                        "expected": group[want].id if want >= 0 else None,
-                       "got": group[sel].id if sel >= 0 else ("raise" if sel == -2 else None)}
+                       "got": group[sel].id if sel >= 0 else ("raise" if sel == -2 else "a message of another PGN's definition" if sel == -3 else None)}
                 rep.violation(key, "PGN %d payload %#x: database selects %s, dispatcher gives %s" % (pgn, pl, key["expected"], key["got"]),
                               {"kind": "dispatch", "pgn": pgn, "payload": hex(pl), "expected": key["expected"]})
             elif st == "unknown":
@@ -113,6 +205,10 @@ def run(tier, seed):
                 # the unreachable definition is reported through the obligations above (spec says i, path says else)
                 rep.count("definitions_never_selected")
         rep.count("paths", len(paths))
+    # ---- (P) the public path keeps no selection state: two payloads through one decoder instance (one job per PGN)
+    _G.update(R=R, D=D, tier=tier)
+    parts = run_jobs(rep, _p_worker, sorted(multi, key=lambda g: -len(D.groups[g])), timeout_s=800)
+    disagreements += sum(p_.get("dis", 0) for p_ in parts if p_)
     # encode side: name resolution for every definition of the multi PGNs
     enc_ns = R.encoder.__dict__
     for pgn in multi:
@@ -161,6 +257,44 @@ def replay(r):
             fb = [p.id for p in group if p.fallback]
             exp = fb[0] if fb else None
         return got != exp, "payload %s -> %r, database rule -> %r" % (r["payload"], got, exp)
+    if r["kind"] == "dispatch2":
+        from datetime import datetime
+        pgn = r["pgn"]
+        group = db().groups[pgn]
+
+        def oracle(pl):
+            for p in group:
+                if p.fallback:
+                    continue
+                if all(((pl >> f.off) & ((1 << f.len) - 1)) == int(f.match) for f in p.fields if f.match is not None):
+                    return p.id
+            fb = [p.id for p in group if p.fallback]
+            return fb[0] if fb else None
+        ns, dns = N.pgns.__dict__, N.decoder.__dict__
+        saved, dsaved = {}, {}
+        for p in group:
+            fn = "decode_pgn_%d_%s" % (pgn, p.id)
+            saved[fn], dsaved[fn] = ns.get(fn), dns.get(fn)
+            ns[fn] = dns[fn] = (lambda p: (lambda d: N.message.NMEA2000Message(PGN=pgn, id=p.id, description="x")))(p)
+        try:
+            dec = N.decoder.NMEA2000Decoder()
+            got = []
+            for key in ("a", "b"):
+                pl = int(r[key], 16)
+                try:
+                    m = dec._call_decode_function(pgn, 3, 7, 255, datetime(2020, 1, 1), pl.to_bytes(r["nb"], "little")[::-1], None, b"")
+                    got.append(None if m is None else m.id)
+                except Exception as e:
+                    got.append("raise %r" % (e,))
+        finally:
+            for fn, v in saved.items():
+                if v is not None:
+                    ns[fn] = v
+            for fn, v in dsaved.items():
+                if v is not None:
+                    dns[fn] = v
+        exp = [oracle(int(r["a"], 16)), oracle(int(r["b"], 16))]
+        return got != exp, "payloads %s, %s -> %r, database rule -> %r" % (r["a"], r["b"], got, exp)
     if r["kind"] == "enc_lookup":
         ns = N.encoder.__dict__
         bad = ("encode_pgn_%d_%s" % (r["pgn"], r["id"])) not in ns or ("encode_pgn_%d" % r["pgn"]) in ns
